@@ -727,6 +727,9 @@ class World:
         if op == "tick":
             NOW[0] += int(t[1])
             return f"ok now={NOW[0]}"
+        if op == "file":   # the user (re)writes a file between transactions: same line as in the header
+            self._header(t)
+            return "ok"
         name = t[1]
         h = self.h.get(name)
         if h is None:
